@@ -266,6 +266,9 @@ func c01Random(c *Case) {
 	d := dg.Tree(o)
 	names := namesIn(d)
 	p := g.FreePath(1+g.Intn(5), names)
+	if c.expensive(p, d) {
+		return
+	}
 	src := xref.Render(p)
 	ce := c.compile(src, func() map[string]interface{} { return map[string]interface{}{"doc": d.XML()} })
 	if ce == nil {
